@@ -361,7 +361,7 @@ def main(argv=None):
         code = 2
 
     wall = time.time() - t0
-    if not a.only:
+    if not a.only and not os.environ.get("PYVC_REPO"):      # runs against a scratch copy never touch the evidence files
         level = getattr(mod, "LEVEL", "proof")
         samples = []
         for label, g in list(sorted(ob.items()))[:3]:
